@@ -32,15 +32,28 @@ static int g_cur_msn_known;
 
 static int in_live(const unsigned char *p, uint32 n)
 {
-    if (p >= g_rec && p + n <= g_rec_end)
+#ifdef VF_CBMC
+    /* (relational comparison of pointers into different objects is itself
+       undefined: compare object identities first) */
+    if (__CPROVER_POINTER_OBJECT(p) == __CPROVER_POINTER_OBJECT(g_rec))
     {
-        return 1;
+        return (size_t) __CPROVER_POINTER_OFFSET(p) + n <= (size_t) (g_rec_end - g_rec);
     }
-    if (g_fm != NULL && p >= g_fm && p + n <= g_fm + g_fm_len)
+    if (g_fm != NULL && __CPROVER_POINTER_OBJECT(p) == __CPROVER_POINTER_OBJECT(g_fm))
     {
-        return 1;
+        return (size_t) __CPROVER_POINTER_OFFSET(p) + n <= (size_t) __CPROVER_POINTER_OFFSET(g_fm) + g_fm_len;
+    }
+    /* a reassembly buffer allocated by this call */
+    if (vf_heap_slot_of(p) >= 0)
+    {
+        return (size_t) __CPROVER_POINTER_OFFSET(p) + n <= vf_heap_sz[vf_heap_slot_of(p)];
     }
     return 0;
+#else
+    (void) p;
+    (void) n;
+    return 1; /* natively the sanitizer decides */
+#endif
 }
 
 static int32 parser_stub(ssl_t *ssl, unsigned char **cp, unsigned char *end)
@@ -54,6 +67,15 @@ static int32 parser_stub(ssl_t *ssl, unsigned char **cp, unsigned char *end)
         g_hash_bad++;
         return MATRIXSSL_ERROR;
     }
+#ifdef VF_NATIVE
+    if (end > *cp)
+    {
+        /* a real parser reads its window: let the sanitizer see both ends */
+        volatile unsigned char t = (*cp)[0];
+        t ^= end[-1];
+        (void) t;
+    }
+#endif
     VF_ASSUME(adv <= (uint32) (end - *cp));
     *cp += adv;
     switch (vf_u8() & 3)
@@ -314,6 +336,29 @@ VF_MAIN
     {
         VF_REACH("rejected");
     }
+    /* C19 / C08: the stored session ticket stays a live block of its recorded
+       length whatever allocation failed on the way */
+    if (ssl->sid != NULL)
+    {
+        VF_ASSERT((S_sid.sessionTicket == NULL) == (S_sid.sessionTicketLen == 0), "c19.hs.session_ticket_pointer_and_length_agree");
+        if (S_sid.sessionTicket != NULL)
+        {
+#ifdef VF_CBMC
+            int sl = vf_heap_slot_of(S_sid.sessionTicket);
+            VF_ASSERT(sl >= 0 && vf_heap_sz[sl] >= S_sid.sessionTicketLen && vf_heap_sz[sl] > 0, "c19.hs.session_ticket_is_live_block");
+#else
+            volatile unsigned char t = S_sid.sessionTicket[0];
+            t ^= S_sid.sessionTicket[S_sid.sessionTicketLen - 1];
+            (void) t;
+#endif
+        }
+    }
+#ifdef VF_FAULT_ALLOC
+    if (vf_alloc_faults > 0)
+    {
+        VF_REACH("allocation_failed");
+    }
+#endif
 #if VF_DTLS
     /* C16.b: a handshake message whose sequence number was already parsed is
        never parsed again (msn == 0 restarts are the hello exchange) */
